@@ -4,7 +4,7 @@ from __future__ import annotations
 
 from .. import terms as tm
 from ..model import AnalysisError
-from .common import ob, need, call_name, resolve_ite_free
+from .common import ob, need, call_name, resolve_ite_free, facts, count_form, decompose, nonempty_bases
 from .. import symeval
 
 PROP = "C20"
@@ -275,6 +275,13 @@ def rule_comment(ctx):
         f = ctx.program.func(q, R)
         s = ctx.S.get(q)
         m = [x for x in s.calls() if x.method in ("match", "search", "fullmatch") and any(xx.op == "call" and call_name(xx) == "re.compile" for xx in tm.walk(x.base))]
+        if not m:
+            # documented as a regular expression: a plain string test is a definite defect, not an unknown shape
+            plain = [x for x in s.calls() if x.method in ("startswith", "find", "index") and any("comment" in tm.params_of(a) for a in x.args)]
+            plain += [x for x in s.by_kind("cmp") if x.d.get("term") is not None and x.d["term"].op == "cmp" and x.d["term"].a[0] in ("==", "in") and "comment" in tm.params_of(x.d["term"]) and not any(tm.is_const(z, None) for z in x.d["term"].a[1:])]
+            if plain:
+                yield ob(R, f, "%s:comment-anchored" % q, False, "the comment marker is documented as a regular expression but lines are tested with a plain string operation: markers such as '[#%]' or '\\s*#' no longer match", node=plain[0].node)
+                continue
         need(len(m) == 1, R, "%s: comment test not found" % q)
         x = m[0]
         alts = [a for a in resolve_ite_free(x.base) if not tm.is_const(a, None)]
@@ -310,6 +317,116 @@ def rule_validatortotal(ctx):
             yield o
 
 
+def rule_oneline(ctx):
+    """Single-line formats (key, tempo): the line count is tested (ValueError) before any column is indexed, so an
+    empty or multi-line file is rejected cleanly instead of failing with IndexError."""
+    R = "C20.ONELINE"
+    for q in ("io.load_key", "io.load_tempo"):
+        f = ctx.program.func(q, R)
+        s = ctx.S.get(q)
+        n = 0
+        for st in s.by_kind("subscript"):
+            t = st.d.get("term")
+            if t is None or t.op != "sub" or not _is_num_const(t.a[1]):
+                continue
+            col = t.a[0]
+            if not (col.op == "sub" and col.a[0].op == "call" and call_name(col.a[0]) == "io.load_delimited"):
+                continue
+            n += 1
+            guarded = False
+            for c, pol in facts(st.pc):
+                if c.op == "cmp" and c.a[0] == "!=" and not pol:
+                    sides = [c.a[1], c.a[2]]
+                    if any(tm.is_const(z, 1) for z in sides) and any(count_form(z) is not None and count_form(z)[1].op == "sub" and count_form(z)[1].a[0] is col.a[0] for z in sides):
+                        guarded = True
+                if c.op == "cmp" and c.a[0] == "==" and pol:
+                    sides = [c.a[1], c.a[2]]
+                    if any(tm.is_const(z, 1) for z in sides) and any(count_form(z) is not None and count_form(z)[1].op == "sub" and count_form(z)[1].a[0] is col.a[0] for z in sides):
+                        guarded = True
+            yield ob(R, f, "%s:first-row@%d" % (q, n), guarded, "column element [0] is read only after the `exactly one line` test" if guarded else "column element %s is read before the line count is tested: an empty file raises IndexError instead of ValueError" % tm.show(t, 3), node=st.node)
+        need(n >= 1, R, "%s: no first-row read found" % q)
+
+
+def _is_num_const(t):
+    return t.op == "const" and isinstance(t.a[0], (int, float)) and not isinstance(t.a[0], bool)
+
+
+def rule_weightrange(ctx):
+    """load_tempo rejects exactly the weights outside the closed interval [0, 1]."""
+    R = "C20.WEIGHTRANGE"
+    f = ctx.program.func("io.load_tempo", R)
+    s = ctx.S.get(f.qual)
+    found = False
+    for r in s.by_kind("raise"):
+        conds = list(symeval.pc_conds(r.pc))
+        if not conds:
+            continue
+        c, pol = conds[-1]
+        atoms = []
+        decompose(c, pol, atoms)
+        # collect the comparisons that make the raise fire; a raise under `not (a and b)` fires when either fails
+        cmps = []
+
+        def collect(t, positive):
+            if t.op == "un" and t.a[0] == "not":
+                collect(t.a[1], not positive)
+            elif t.op == "bool":
+                for z in t.a[1:]:
+                    collect(z, positive)
+            elif t.op == "cmp":
+                cmps.append((t, positive))
+
+        collect(c, pol)
+        w = [(t, p) for t, p in cmps if any(z.op == "sub" and _is_num_const(z.a[1]) for z in t.a[1:]) and any(_is_num_const(z) for z in t.a[1:])]
+        if len(w) < 2:
+            continue
+        found = True
+        lo = hi = None
+        for t, p in w:
+            op, a, b2 = t.a
+            # normalised orientation: a < b or a <= b; p False means the negation fires the raise
+            const_left = _is_num_const(a)
+            k = a.a[0] if const_left else b2.a[0]
+            if p:
+                fires = (op, const_left)
+            else:
+                fires = ({"<": ">=", "<=": ">"}.get(op, op), const_left)
+            # rejects weight when: const OP' weight (const_left) or weight OP' const
+            if k == 0:
+                # accepted closed at 0 iff the raise fires for weight < 0 only: (0 > weight) or (weight < 0)
+                lo = fires in ((">", True), ("<", False))
+            if k == 1:
+                hi = fires in (("<", True), (">", False))
+        yield ob(R, f, "io.load_tempo:weight-closed-range", bool(lo) and bool(hi), "the raise fires exactly for weight < 0 or weight > 1 (both bounds accepted)" if lo and hi else "the weight test rejects a bound of the closed interval [0, 1] (lower ok: %s, upper ok: %s)" % (lo, hi), node=r.node)
+    need(found, R, "load_tempo: weight range test not found")
+
+
+def rule_emptyindex(ctx):
+    """The validators the loaders call accept an empty array: no element is read by a constant position unless a
+    test on the path proves the array non-empty (an empty annotation file must load as an empty array)."""
+    R = "C20.EMPTYINDEX"
+    for q in ("util.validate_events", "util.validate_intervals", "key.validate_key", "tempo.validate_tempi"):
+        f = ctx.program.func(q, R)
+        s = ctx.S.get(q)
+        bad = []
+        for st in s.by_kind("subscript"):
+            t = st.d.get("term")
+            if t is None or t.op != "sub":
+                continue
+            base, idx = t.a
+            if base.op == "attr" and base.a[1] in ("shape", "args"):
+                continue
+            consts = [idx] if _is_num_const(idx) else ([z for z in idx.a if _is_num_const(z)] if idx.op == "tuple" else [])
+            if not consts or base.op != "param":
+                continue
+            if idx.op == "tuple" and idx.a and idx.a[0].op == "slice":
+                continue  # column projection x[:, k] of an n-by-2 array is fine for n == 0
+            ne = [b for k, b in nonempty_bases(st.pc)]
+            if not any(b is base for b in ne):
+                bad.append(tm.show(t, 2))
+        yield ob(R, f, "%s:no-unguarded-positional-read" % q, not bad, "no element is read by constant position without a non-emptiness test" if not bad else "reads %s without testing that the array is non-empty: an empty annotation raises IndexError" % ", ".join(sorted(set(bad))))
+
+
 RULES = [
     ("C20.VALIDATORTOTAL", 10, rule_validatortotal),
     ("C20.CONVERTERS", 14, rule_converters),
@@ -317,4 +434,7 @@ RULES = [
     ("C20.WARNWRAP", 10, rule_warnwrap),
     ("C20.OPENBOTH", 6, rule_openboth),
     ("C20.COMMENT", 4, rule_comment),
+    ("C20.ONELINE", 3, rule_oneline),
+    ("C20.WEIGHTRANGE", 1, rule_weightrange),
+    ("C20.EMPTYINDEX", 4, rule_emptyindex),
 ]
